@@ -532,14 +532,14 @@ func TestC45_GenerateVerify(t *testing.T) {
 				t.Fatalf("%s", vkit.Violation("C45", "verify-hang", "VERIF-HANG VerifyRoundBlock did not return within 3 minutes\n%s", describe()))
 			}
 			if verr != nil {
-				if includedBadSig {
+				if includedBadSig && strings.Contains(strings.ToLower(verr.Error()), "signature") {
 					if !st.Known(c45KeyBadSig) {
 						t.Fatalf("%s", vkit.Violation("C45", c45KeyBadSig, "generated block carries a pool transaction whose signature does not verify; the verifier rejects the block: %v\n%s", verr, describe()))
 					}
 					st.Class("known/" + c45KeyBadSig)
 					return
 				}
-				if builtinTwice != "" && includedBuiltinFromPool {
+				if builtinTwice != "" && includedBuiltinFromPool && strings.Contains(verr.Error(), "txn_validation_failed") {
 					if !st.Known(c45KeyBuiltin) {
 						t.Fatalf("%s", vkit.Violation("C45", c45KeyBuiltin, "built-in function %q is in the generated block %d times (one of them a pool transaction sent by an ordinary client); the verifier rejects the block: %v\n%s", builtinTwice, fnCount[builtinTwice], verr, describe()))
 					}
